@@ -83,6 +83,18 @@ Theorem C06_parse_pos_injective : forall eof_pos eof_errs ts d es,
   NoDup (token_positions ts) -> NoDup (positions_document d).
 Proof. exact parse_pos_injective. Qed.
 
+Theorem C06_parse_positions_are_token_positions : forall eof_pos eof_errs ts d es p,
+  ParseDocument eof_pos eof_errs false ts = Out (Some d) es ->
+  In p (positions_document d) -> In p (token_positions ts).
+Proof. exact parse_positions_are_token_positions. Qed.
+
+(** Instance for the property's "1 <= line <= lines + 1": take
+    [Inside p := 1 <= line p <= lines + 1], which the scanner guarantees of tokens and of EOF. *)
+Theorem C06_parse_error_inside_text : forall eof_pos eof_errs (Inside : pos -> Prop) ts es,
+  Forall Inside (token_positions ts) -> Inside eof_pos ->
+  ParseDocument eof_pos eof_errs false ts = Out None es -> exists pre p, es = pre ++ [p] /\ Inside p.
+Proof. exact parse_error_inside_text. Qed.
+
 (** Insensitivity to layout.  The model's only input is the significant-token sequence (ignored
     tokens never reach the parser: that the real parser agrees is what the correspondence check
     establishes on every run); positions are only copied: two layouts of one token sequence
@@ -157,6 +169,8 @@ Print Assumptions C06_parse_document_tree.
 Print Assumptions C06_parse_error_located.
 Print Assumptions C06_parse_reject_has_error.
 Print Assumptions C06_parse_pos_injective.
+Print Assumptions C06_parse_positions_are_token_positions.
+Print Assumptions C06_parse_error_inside_text.
 Print Assumptions C06_parse_layout_insensitive.
 Print Assumptions C06_parse_layout_same_verdict.
 Print Assumptions C06_recursion_balanced.
